@@ -67,7 +67,7 @@ PROPERTIES: dict[str, dict] = {
         "assumptions": COMMON_ASSUMPTIONS + ["CTfile V3000 atom keyword list (spec.py)"],
     },
     "C07": {
-        "rules": ["R-KWEXACT", "R-ZERO", "R-ORDERING", "R-SPLICE", "R-TOKENS", "R-SIBKEYS", "R-PROV", "R-ALIAS", "R-WRAP", "R-INDEXSPACE", "R-GRAPHBUILD", "R-DISPATCH", "R-SYMZ", "R-BONDTYPE", "R-IDXTRUTH", "R-COUNTSLINE", "R-NONECHECK", "R-ATOMLINE"],
+        "rules": ["R-KWEXACT", "R-ZERO", "R-ORDERING", "R-SPLICE", "R-TOKENS", "R-SIBKEYS", "R-PROV", "R-ALIAS", "R-WRAP", "R-INDEXSPACE", "R-GRAPHBUILD", "R-DISPATCH", "R-SYMZ", "R-BONDTYPE", "R-IDXTRUTH", "R-COUNTSLINE", "R-NONECHECK", "R-ATOMLINE", "R-V3SAMPLE"],
         "technique": "partial evaluation of token predicates over the spec's keyword set + heap-based taint analysis of the reader + CFG ordering rules",
         "explanation": "Keyword recognizers accept exactly their keyword; zero-valued explicit defaults never reach atom records; splicing precedes "
                        "tokenising and bond endpoints are validated before return; D/T pass through the shared helper; per-bond dictionaries are not shared.",
@@ -75,7 +75,7 @@ PROPERTIES: dict[str, dict] = {
         "assumptions": COMMON_ASSUMPTIONS + ["CTfile V3000 atom keyword list (spec.py)"],
     },
     "C08": {
-        "rules": ["R-COLS", "R-CHGTABLE", "R-SIBKEYS", "R-KILL", "R-SUPERSEDE", "R-ZERO", "R-PROV", "R-INDEXSPACE", "R-GRAPHBUILD", "R-FLOW-SERIAL", "R-FLOW-CANON", "R-DISPATCH", "R-SYMZ", "R-BONDTYPE", "R-IDXTRUTH", "R-ATOMLINE"],
+        "rules": ["R-COLS", "R-CHGTABLE", "R-SIBKEYS", "R-KILL", "R-SUPERSEDE", "R-ZERO", "R-PROV", "R-INDEXSPACE", "R-GRAPHBUILD", "R-FLOW-SERIAL", "R-FLOW-CANON", "R-DISPATCH", "R-SYMZ", "R-BONDTYPE", "R-IDXTRUTH", "R-ATOMLINE", "R-ALIAS", "R-V2SAMPLE"],
         "technique": "column-span checking via provenance labels and partial evaluation + kill/def analysis of the property block",
         "explanation": "Every column slice equals its CTfile field (atom, bond, counts and the affine property-entry layout for entries 1..8), the "
                        "charge-code table is the format's, both readers write the same keys, symbol-derived masses are never cleared, CHG/RAD lines "
@@ -92,7 +92,7 @@ PROPERTIES: dict[str, dict] = {
         "assumptions": COMMON_ASSUMPTIONS,
     },
     "C10": {
-        "rules": ["R-GRAM3", "R-LEX", "R-GRAMREC", "R-LISTENERS", "R-HANDLERS", "R-ORDERING", "R-DUPATTR", "R-ESCAPE", "R-REJECT", "R-ALIAS", "R-KEYS", "R-ELEMTABLE", "R-CODEC", "R-GRAPHBUILD", "R-GLOBAL", "R-PARSEPATH", "R-IDXTRUTH"],
+        "rules": ["R-GRAM3", "R-LEX", "R-GRAMREC", "R-LISTENERS", "R-HANDLERS", "R-ORDERING", "R-DUPATTR", "R-ESCAPE", "R-REJECT", "R-ALIAS", "R-KEYS", "R-ELEMTABLE", "R-CODEC", "R-GRAPHBUILD", "R-GLOBAL", "R-PARSEPATH", "R-IDXTRUTH", "R-LISTENSAMPLE"],
         "thorough_rules": ["R-GENCODE"],
         "technique": "language equivalence EBNF = G4 = generated ATN by automata + typestate/CFG rules on the parser wiring",
         "explanation": "The recogniser the parser runs is the published grammar (decision procedure over all strings: three-way language equivalence "
